@@ -46,6 +46,7 @@
                res ("pos" | "neg" | "none"), v = property value returned (prop), lvl = reset level / session
      O.nmain   how often main() was entered;  O.mainStart, O.mainEnd;  O.mainOut "ok" | "raise" | "none"
      O.runEnd, O.runOut  "ok" | "main-exc" | "exc" | "hang";   O.open  connections still open after the run
+     O.leaked  background tasks created during the run that are still pending some intervals after it ended
      O.db    = [has, pre, post]   scan_run row present, properties_pre / properties_post as value index (-1: NULL)
      O.files = [pre, post]        PROPERTIES_PRE.json / PROPERTIES_POST.json (-1: missing)
      O.warnTeardown               warnings logged between the end of main() and the end of the run              *)
@@ -90,7 +91,7 @@ G2_TesterPresentDuringMain(O) ==
                                \/ \E j \in TpMain(O) : j > i /\ O.reqs[j].t - O.reqs[i].t <= W
   ELSE \A i \in Idx(O) : O.reqs[i].k = "tp" => O.reqs[i].ph = "setup"
 
-G3_StoppedAfterwards(O) == (\A i \in Idx(O) : O.reqs[i].ph # "after") /\ O.open = 0
+G3_StoppedAfterwards(O) == (\A i \in Idx(O) : O.reqs[i].ph # "after") /\ O.open = 0 /\ O.leaked = 0
 
 H1_PropsRead(O) ==
   IF O.cfg.props THEN Sel(O, "setup", "prop") # {} /\ Sel(O, "teardown", "prop") # {}
